@@ -111,10 +111,10 @@ theorem prefixCount_padB (K n : Nat) : prefixCount (padB K n) = some (min n K) :
       rw [this, prefixCount, ih]; simp
 
 theorem padN_length (K : Nat) (l : List Nat) : (padN K l).length = K := by
-  simp [padN]; omega
+  simp [padN]
 
 theorem padB_length (K n : Nat) : (padB K n).length = K := by
-  simp [padB]; omega
+  simp [padB]
 
 /-- element `j` of the padded output list: the `j`-th index if there is one, else 0 -/
 theorem padN_getElem? (K : Nat) (l : List Nat) (j : Nat) (hj : j < K) :
@@ -122,7 +122,7 @@ theorem padN_getElem? (K : Nat) (l : List Nat) (j : Nat) (hj : j < K) :
   simp only [padN, List.getElem?_take, hj, if_true, List.getElem?_append, List.getElem?_replicate]
   split
   · rename_i h; simp [h]
-  · rename_i h; simp [h]; omega
+  · simp; omega
 
 /-- element `j` of the valid flags: set iff `j < n` -/
 theorem padB_getElem? (K n : Nat) (j : Nat) (hj : j < K) : (padB K n)[j]? = some (decide (j < n)) := by
@@ -167,5 +167,446 @@ theorem build_eq_spec (K : Nat) : ∀ (fuel : Nat) (bits : List Bool) (start : N
 
 theorem mpe_eq_spec (K : Nat) (bits : List Bool) : mpe K bits = spec K bits 0 :=
   build_eq_spec K bits.length bits 0 (Nat.le_refl _)
+
+theorem idxs_zero_eq_setBits (bits : List Bool) : idxs bits 0 = setBits bits := by
+  rw [idxs_eq_filter, setBits, List.range_eq_range']
+  rfl
+
+/-! ### RingMultiPriorityEncoder -/
+
+/-- set positions of a slice `[s, s+n)` of `inp`, as a filter over the positions -/
+theorem filter_range_eq_idxs (inp : List Bool) (s n : Nat) (h : s + n ≤ inp.length) :
+    (List.range' s n).filter (fun j => inp[j]? == some true) = idxs ((inp.drop s).take n) s := by
+  rw [idxs_eq_filter]
+  have hl : ((inp.drop s).take n).length = n := by simp; omega
+  rw [hl]
+  apply List.filter_congr
+  intro j hj
+  have := List.mem_range'_1.1 hj
+  have h1 : j - s < n := by omega
+  simp only [List.getElem?_take, h1, if_true, List.getElem?_drop]
+  have : s + (j - s) = j := by omega
+  rw [this]
+
+theorem encIn_le (inp : List Bool) (first last : Nat) (hfl : first ≤ last) (hl : last < inp.length) :
+    shiftRightTrunc inp.length first (maskLow last (inp ++ inp)) =
+      (inp.drop first).take (last - first) ++ List.replicate (inp.length - (last - first)) false := by
+  unfold shiftRightTrunc maskLow
+  apply List.ext_getElem?
+  intro n
+  simp only [List.getElem?_append, List.getElem?_take, List.getElem?_drop, List.length_take, List.length_append,
+    List.length_replicate, List.length_drop, List.getElem?_replicate]
+  grind
+
+theorem encIn_gt (inp : List Bool) (first last : Nat) (hfl : last < first) (hf : first < inp.length) :
+    shiftRightTrunc inp.length first (maskLow (inp.length + last) (inp ++ inp)) =
+      inp.drop first ++ (inp.take last ++ List.replicate (first - last) false) := by
+  unfold shiftRightTrunc maskLow
+  apply List.ext_getElem?
+  intro n
+  simp only [List.getElem?_append, List.getElem?_take, List.getElem?_drop, List.length_take, List.length_append,
+    List.length_replicate, List.length_drop, List.getElem?_replicate]
+  grind
+
+/-- the output correction `Mux(moved_out >= input_width, moved_out - input_width, moved_out)` -/
+def unshift (w first o : Nat) : Nat := if o + first ≥ w then o + first - w else o + first
+
+theorem ring_unfold (K : Nat) (inp : List Bool) (first last : Nat) :
+    ring K inp first last =
+      let encIn := shiftRightTrunc inp.length first
+        (maskLow (if first > last then inp.length + last else last) (inp ++ inp))
+      ((padN K (idxs encIn 0)).map (unshift inp.length first), padB K (idxs encIn 0).length) := by
+  simp only [ring, mpe_eq_spec, spec]
+  rfl
+
+theorem map_padN (K : Nat) (l : List Nat) (f : Nat → Nat) :
+    (padN K l).map f = (l.map f ++ List.replicate K (f 0)).take K := by
+  simp [padN, List.map_take]
+
+/-- the encoder input holds exactly the selected window, and un-shifting its set positions gives `ringSel` -/
+theorem ring_idxs (inp : List Bool) (first last : Nat) (hf : first < inp.length) (hl : last < inp.length) :
+    (idxs (shiftRightTrunc inp.length first
+        (maskLow (if first > last then inp.length + last else last) (inp ++ inp))) 0).map (unshift inp.length first)
+      = ringSel inp first last := by
+  unfold ringSel ringOrder
+  by_cases hfl : first ≤ last
+  · have hn : ¬ first > last := by omega
+    simp only [hn, hfl, if_true, if_false]
+    rw [encIn_le inp first last hfl hl, idxs_append, idxs_falses, List.append_nil,
+      filter_range_eq_idxs inp first (last - first) (by omega)]
+    have := idxs_map_add ((inp.drop first).take (last - first)) 0 first
+    rw [Nat.zero_add] at this
+    rw [← this]
+    apply List.map_congr_left
+    intro j hj
+    have hm := mem_idxs hj
+    simp at hm
+    unfold unshift
+    have : ¬ j + first ≥ inp.length := by omega
+    simp [this]
+  · have hn : first > last := by omega
+    simp only [hn, hfl, if_true, if_false]
+    rw [encIn_gt inp first last hn hf, idxs_append, idxs_append, idxs_falses, List.append_nil,
+      List.filter_append, List.map_append]
+    congr 1
+    · have h1 := filter_range_eq_idxs inp first (inp.length - first) (by omega)
+      have h2 : (inp.drop first).take (inp.length - first) = inp.drop first := by
+        apply List.take_of_length_le; simp
+      rw [h1, h2]
+      have := idxs_map_add (inp.drop first) 0 first
+      rw [Nat.zero_add] at this
+      rw [← this]
+      apply List.map_congr_left
+      intro j hj
+      have hm := mem_idxs hj
+      simp at hm
+      unfold unshift
+      have : ¬ j + first ≥ inp.length := by omega
+      simp [this]
+    · have h1 := filter_range_eq_idxs inp 0 last (by omega)
+      simp only [List.drop_zero] at h1
+      rw [h1]
+      have := idxs_map_add (inp.take last) 0 (inp.length - first)
+      simp only [List.length_drop, Nat.zero_add]
+      rw [Nat.zero_add] at this
+      rw [← this, List.map_map]
+      conv => rhs; rw [← List.map_id (idxs (List.take last inp) 0)]
+      apply List.map_congr_left
+      intro j hj
+      have hm := mem_idxs hj
+      simp at hm
+      simp only [Function.comp, unshift, id]
+      have : j + (inp.length - first) + first ≥ inp.length := by omega
+      simp only [this, if_true]
+      omega
+
+theorem unshift_zero {w first : Nat} (hf : first < w) : unshift w first 0 = first := by
+  simp only [unshift, Nat.zero_add]
+  split <;> omega
+
+theorem ring_eq (K : Nat) (inp : List Bool) (first last : Nat) (hf : first < inp.length) (hl : last < inp.length) :
+    ring K inp first last =
+      ((ringSel inp first last ++ List.replicate K first).take K, padB K (ringSel inp first last).length) := by
+  rw [ring_unfold]
+  simp only
+  rw [map_padN, ring_idxs inp first last hf hl, unshift_zero hf, ← ring_idxs inp first last hf hl, List.length_map]
+
+/-! ### StableSelectingNetwork -/
+
+/-- the meaningful part of a node: its first `cnt` elements -/
+def sem (a : Node) : List Nat := a.1.take a.2
+/-- well-formed node: the count does not exceed the array length -/
+def WF (a : Node) : Prop := a.2 ≤ a.1.length
+
+theorem mergeNode_length (a b : Node) : (mergeNode a b).1.length = a.1.length + b.1.length := by
+  simp [mergeNode]
+
+theorem mergeNode_wf {a b : Node} (ha : WF a) (hb : WF b) : WF (mergeNode a b) := by
+  unfold WF at *
+  rw [mergeNode_length]
+  simp only [mergeNode]
+  omega
+
+theorem mergeNode_sem {a b : Node} (ha : WF a) (hb : WF b) : sem (mergeNode a b) = sem a ++ sem b := by
+  unfold WF at ha hb
+  unfold sem mergeNode
+  apply List.ext_getElem?
+  intro i
+  simp only [List.getElem?_take, List.getElem?_append, List.getElem?_mapIdx, List.getElem?_map,
+    List.length_take, List.length_mapIdx, List.getD_eq_getElem?_getD]
+  grind
+
+
+/-- total array length of a level -/
+def totalLen (l : List Node) : Nat := (l.map (fun a => a.1.length)).sum
+
+theorem pairUp_spec : ∀ (l : List Node), (∀ a ∈ l, WF a) →
+    (∀ a ∈ pairUp l, WF a) ∧ ((pairUp l).map sem).flatten = (l.map sem).flatten ∧
+      totalLen (pairUp l) = totalLen l ∧ (pairUp l).length = (l.length + 1) / 2
+  | [], _ => by simp [pairUp]
+  | [a], h => by simpa [pairUp] using h
+  | a :: b :: rest, h => by
+    have ha : WF a := h a (by simp)
+    have hb : WF b := h b (by simp)
+    obtain ⟨h1, h2, h3, h4⟩ := pairUp_spec rest (fun x hx => h x (by simp [hx]))
+    refine ⟨?_, ?_, ?_, ?_⟩
+    · intro x hx
+      simp only [pairUp, List.mem_cons] at hx
+      rcases hx with hx | hx
+      · rw [hx]; exact mergeNode_wf ha hb
+      · exact h1 x hx
+    · simp only [pairUp, List.map_cons, List.flatten_cons, h2, mergeNode_sem ha hb, List.append_assoc]
+    · simp only [totalLen, pairUp, List.map_cons, List.sum_cons, mergeNode_length] at h3 ⊢
+      omega
+    · simp only [pairUp, List.length_cons, h4]; omega
+
+theorem reduce_spec : ∀ (f : Nat) (l : List Node), (∀ a ∈ l, WF a) → l.length ≤ f + 1 →
+    (∀ a ∈ reduce f l, WF a) ∧ ((reduce f l).map sem).flatten = (l.map sem).flatten ∧
+      totalLen (reduce f l) = totalLen l ∧ (reduce f l).length ≤ 1 ∧ (l ≠ [] → reduce f l ≠ [])
+  | 0, l, h, hl => by
+    have e : reduce 0 l = l := rfl
+    rw [e]
+    exact ⟨h, rfl, rfl, by omega, fun h => h⟩
+  | f+1, l, h, hl => by
+    unfold reduce
+    by_cases h2 : l.length ≥ 2
+    · simp only [h2, if_true]
+      obtain ⟨p1, p2, p3, p4⟩ := pairUp_spec l h
+      obtain ⟨r1, r2, r3, r4, r5⟩ := reduce_spec f (pairUp l) p1 (by omega)
+      refine ⟨r1, by rw [r2, p2], by rw [r3, p3], r4, fun _ => r5 ?_⟩
+      intro he
+      rw [he] at p4
+      simp at p4
+      omega
+    · rw [if_neg h2]
+      exact ⟨h, rfl, rfl, by omega, fun h => h⟩
+
+
+theorem leaves_spec : ∀ (inputs : List Nat) (valids : List Bool), inputs.length = valids.length →
+    (∀ a ∈ leaves inputs valids, WF a) ∧ ((leaves inputs valids).map sem).flatten = selectValid inputs valids ∧
+      totalLen (leaves inputs valids) = inputs.length ∧ (leaves inputs valids).length = inputs.length
+  | [], [], _ => by simp [leaves, selectValid, totalLen]
+  | [], _ :: _, h => by simp at h
+  | _ :: _, [], h => by simp at h
+  | x :: xs, v :: vs, h => by
+    obtain ⟨h1, h2, h3, h4⟩ := leaves_spec xs vs (by simpa using h)
+    unfold leaves at h1 h2 h3 h4 ⊢
+    refine ⟨?_, ?_, ?_, ?_⟩
+    · intro a ha
+      simp only [List.zipWith_cons_cons, List.mem_cons] at ha
+      rcases ha with ha | ha
+      · rw [ha]; cases v <;> simp [WF]
+      · exact h1 a ha
+    · simp only [List.zipWith_cons_cons, List.map_cons, List.flatten_cons, h2, selectValid]
+      cases v <;> simp [sem]
+    · simp only [totalLen, List.zipWith_cons_cons, List.map_cons, List.sum_cons, List.length_cons,
+        List.length_nil] at h3 ⊢
+      omega
+    · simp [h4]
+
+/-- `StableSelectingNetwork`: the first `output_cnt` outputs are the valid inputs in order,
+    `output_cnt` is their number, and there are `n` outputs -/
+theorem ssn_spec (inputs : List Nat) (valids : List Bool) (h : inputs.length = valids.length)
+    (hn : 0 < inputs.length) :
+    ∃ o c, ssn inputs valids = some (o, c) ∧ o.take c = selectValid inputs valids ∧
+      c = (selectValid inputs valids).length ∧ o.length = inputs.length := by
+  obtain ⟨l1, l2, l3, l4⟩ := leaves_spec inputs valids h
+  obtain ⟨r1, r2, r3, r4, r5⟩ := reduce_spec inputs.length (leaves inputs valids) l1 (by omega)
+  have hne : leaves inputs valids ≠ [] := by
+    intro he; rw [he] at l4; simp at l4; omega
+  have := r5 hne
+  unfold ssn
+  match hr : reduce inputs.length (leaves inputs valids), this, r4 with
+  | [a], _, _ =>
+    rw [hr] at r1 r2 r3
+    have hw : WF a := r1 a (by simp)
+    simp only [List.map_cons, List.map_nil, List.flatten_cons, List.flatten_nil, List.append_nil] at r2
+    simp only [totalLen, List.map_cons, List.map_nil, List.sum_cons, List.sum_nil, Nat.add_zero] at r3
+    refine ⟨a.1, a.2, rfl, ?_, ?_, ?_⟩
+    · rw [← l2, ← r2]; rfl
+    · rw [← l2, ← r2]; unfold sem WF at *; simp; omega
+    · rw [r3]; exact l3
+
+/-! ### one_hot_mux -/
+
+/-! ### lowest set bit -/
+
+theorem lowestSet_false (l : List Bool) : lowestSet (false :: l) = false :: lowestSet l := by
+  simp [lowestSet, negL, incL]
+
+theorem and_not_self (l : List Bool) : List.zipWith (· && ·) l (l.map (!·)) = List.replicate l.length false := by
+  induction l with
+  | nil => rfl
+  | cons b bs ih => simp [List.replicate_succ, ih]
+
+theorem lowestSet_true (l : List Bool) : lowestSet (true :: l) = true :: List.replicate l.length false := by
+  simp [lowestSet, negL, incL, and_not_self]
+
+/-- `extract_lowest_set_bit`: everything above the lowest set bit is cleared -/
+theorem lowestSet_spec (i : Nat) (rest : List Bool) :
+    lowestSet (List.replicate i false ++ true :: rest) =
+      List.replicate i false ++ true :: List.replicate rest.length false := by
+  induction i with
+  | zero => simp [lowestSet_true]
+  | succ i ih => simp only [List.replicate_succ, List.cons_append, lowestSet_false, ih]
+
+theorem lowestSet_zero (n : Nat) : lowestSet (List.replicate n false) = List.replicate n false := by
+  induction n with
+  | zero => rfl
+  | succ n ih => simp only [List.replicate_succ, lowestSet_false, ih]
+
+/-! ### the OR tree -/
+
+def orAll (l : List Nat) : Nat := l.foldr (· ||| ·) 0
+
+theorem pairOr_orAll : ∀ l : List Nat, orAll (pairOr l) = orAll l
+  | [] => rfl
+  | [_] => rfl
+  | a :: b :: rest => by
+    simp only [pairOr, orAll, List.foldr_cons]
+    have := pairOr_orAll rest
+    simp only [orAll] at this
+    rw [this, Nat.or_assoc]
+
+theorem pairOr_length : ∀ l : List Nat, (pairOr l).length = (l.length + 1) / 2
+  | [] => rfl
+  | [_] => by simp [pairOr]
+  | a :: b :: rest => by
+    simp only [pairOr, List.length_cons, pairOr_length rest]; omega
+
+/-- `binary_tree_reduce` with `|` computes the OR of all elements -/
+theorem treeOr_eq : ∀ (f : Nat) (l : List Nat), l.length ≤ f + 1 → treeOr f l = orAll l
+  | _, [], _ => by simp [treeOr, orAll]
+  | _, [x], _ => by simp [treeOr, orAll]
+  | 0, a :: b :: rest, h => by simp at h
+  | f+1, a :: b :: rest, h => by
+    rw [treeOr, treeOr_eq f (pairOr (a :: b :: rest)), pairOr_orAll]
+    rw [pairOr_length]; simp at h ⊢; omega
+
+/-! ### selecting with a one-hot vector -/
+
+def muxTerms (sel : List Bool) (data : List Nat) : List Nat :=
+  List.zipWith (fun (s : Bool) d => if s then d else 0) sel data
+
+theorem orAll_muxTerms_falses (n : Nat) (data : List Nat) : orAll (muxTerms (List.replicate n false) data) = 0 := by
+  induction n generalizing data with
+  | zero => simp [muxTerms, orAll]
+  | succ n ih =>
+    cases data with
+    | nil => simp [muxTerms, orAll]
+    | cons d ds =>
+      have := ih ds
+      simp only [muxTerms, orAll] at this ⊢
+      simp [List.replicate_succ, this]
+
+theorem orAll_muxTerms_onehot (i m : Nat) (data : List Nat) (d : Nat) (hd : data[i]? = some d) :
+    orAll (muxTerms (List.replicate i false ++ true :: List.replicate m false) data) = d := by
+  induction i generalizing data with
+  | zero =>
+    cases data with
+    | nil => simp at hd
+    | cons x xs =>
+      simp at hd
+      have := orAll_muxTerms_falses m xs
+      simp only [muxTerms, orAll] at this ⊢
+      simp [this, hd]
+  | succ i ih =>
+    cases data with
+    | nil => simp at hd
+    | cons x xs =>
+      have := ih xs (by simpa using hd)
+      simp only [muxTerms, orAll] at this ⊢
+      simp [List.replicate_succ, this]
+
+/-- the last stage of `one_hot_mux`: the single-input shortcut, else the OR tree over the gated inputs -/
+def muxOut (allSel : List Bool) (allData : List Nat) : Nat :=
+  match allData with
+  | [x] => x
+  | _ => treeOr allData.length (muxTerms allSel allData)
+
+theorem oneHotMux_eq (priority : Bool) (sel : List Bool) (data : List Nat) (dflt : Option Nat) :
+    oneHotMux priority sel data dflt =
+      muxOut (match dflt with
+          | none => (if priority then lowestSet sel else sel)
+          | some _ => (if priority then lowestSet sel else sel) ++ [!(sel.any id)])
+        (match dflt with
+          | none => data
+          | some d => data ++ [d]) := by
+  cases dflt <;> rfl
+
+theorem muxOut_general (allSel : List Bool) (allData : List Nat) :
+    muxOut allSel allData = if allData.length = 1 then allData.headD 0 else orAll (muxTerms allSel allData) := by
+  unfold muxOut
+  match allData with
+  | [] => simp [treeOr, orAll, muxTerms]
+  | [x] => simp
+  | x :: y :: r =>
+    simp only [List.length_cons, Nat.add_eq_right, Nat.add_eq_zero_iff, Nat.succ_ne_self, and_false, if_false]
+    apply treeOr_eq
+    simp only [muxTerms, List.length_zipWith, List.length_cons]
+    omega
+
+/-- with a one-hot select vector the output is the selected input -/
+theorem muxOut_onehot (i m : Nat) (allData : List Nat) (d : Nat)
+    (hlen : allData.length = i + 1 + m) (hd : allData[i]? = some d) :
+    muxOut (List.replicate i false ++ true :: List.replicate m false) allData = d := by
+  rw [muxOut_general]
+  split
+  · rename_i h1
+    have hi : i = 0 := by omega
+    subst hi
+    match allData, hd with
+    | x :: _, hd => simpa using hd
+  · exact orAll_muxTerms_onehot i m allData d hd
+
+theorem muxOut_falses (n : Nat) (allData : List Nat) (h : allData.length ≠ 1) :
+    muxOut (List.replicate n false) allData = 0 := by
+  rw [muxOut_general]
+  simp [h, orAll_muxTerms_falses]
+
+theorem any_id_onehot (i : Nat) (rest : List Bool) : (List.replicate i false ++ true :: rest).any id = true := by
+  simp
+
+theorem any_id_falses (n : Nat) : (List.replicate n false).any id = false := by
+  simp
+
+/-- output of the mux when the effective one-hot vector has exactly bit `i` set -/
+theorem oneHotMux_core (priority : Bool) (sel : List Bool) (data : List Nat) (dflt : Option Nat) (i m d : Nat)
+    (hoh : (if priority then lowestSet sel else sel) = List.replicate i false ++ true :: List.replicate m false)
+    (hany : sel.any id = true) (hlen : data.length = i + 1 + m) (hd : data[i]? = some d) :
+    oneHotMux priority sel data dflt = d := by
+  rw [oneHotMux_eq, hoh, hany]
+  cases dflt with
+  | none => exact muxOut_onehot i m data d hlen hd
+  | some df =>
+    simp only [Bool.not_true]
+    have : List.replicate i false ++ true :: List.replicate m false ++ [false] =
+        List.replicate i false ++ true :: List.replicate (m + 1) false := by
+      simp [List.replicate_succ']
+    rw [this]
+    apply muxOut_onehot i (m + 1) (data ++ [df]) d (by simp; omega)
+    rw [List.getElem?_append_left (by omega)]; exact hd
+
+
+theorem mux_priority (sel : List Bool) (data : List Nat) (dflt : Option Nat) (i : Nat) (rest : List Bool) (d : Nat)
+    (hlen : sel.length = data.length) (hs : sel = List.replicate i false ++ true :: rest) (hd : data[i]? = some d) :
+    oneHotMux true sel data dflt = d := by
+  apply oneHotMux_core true sel data dflt i rest.length d
+  · simp only [if_true]; rw [hs, lowestSet_spec]
+  · rw [hs]; exact any_id_onehot i rest
+  · rw [← hlen, hs]; simp; omega
+  · exact hd
+
+theorem mux_onehot (sel : List Bool) (data : List Nat) (dflt : Option Nat) (i m : Nat) (d : Nat)
+    (hlen : sel.length = data.length) (hs : sel = List.replicate i false ++ true :: List.replicate m false)
+    (hd : data[i]? = some d) (priority : Bool) :
+    oneHotMux priority sel data dflt = d := by
+  cases priority with
+  | true => exact mux_priority sel data dflt i _ d hlen hs hd
+  | false =>
+    apply oneHotMux_core false sel data dflt i m d
+    · simpa using hs
+    · rw [hs]; exact any_id_onehot i _
+    · rw [← hlen, hs]; simp; omega
+    · exact hd
+
+theorem mux_default (priority : Bool) (n : Nat) (data : List Nat) (d : Nat) (hlen : data.length = n) :
+    oneHotMux priority (List.replicate n false) data (some d) = d := by
+  rw [oneHotMux_eq]
+  have h1 : (if priority then lowestSet (List.replicate n false) else List.replicate n false) =
+      List.replicate n false := by cases priority <;> simp [lowestSet_zero]
+  simp only [h1, any_id_falses, Bool.not_false]
+  exact muxOut_onehot n 0 (data ++ [d]) d (by simp [hlen]) (by simp [hlen])
+
+theorem mux_none (priority : Bool) (n : Nat) (data : List Nat) (hlen : data.length ≠ 1) :
+    oneHotMux priority (List.replicate n false) data none = 0 := by
+  rw [oneHotMux_eq]
+  have h1 : (if priority then lowestSet (List.replicate n false) else List.replicate n false) =
+      List.replicate n false := by cases priority <;> simp [lowestSet_zero]
+  simp only [h1]
+  exact muxOut_falses n data hlen
+
+theorem mux_single (priority : Bool) (sel : List Bool) (x : Nat) : oneHotMux priority sel [x] none = x := by
+  rw [oneHotMux_eq]; rfl
 
 end TxV.Encoders
